@@ -20,7 +20,7 @@ EXPLANATION = (
     "(index has key 0 / non-empty) or the creating branch of initialise() writes one; R27.2 at `_index.insert` in initialise() the "
     "result of read(_iod,&rec,sizeof rec) is proven == sizeof rec by dominating guards; R27.3 put(seq,bytes): write(data) ≺ "
     "write(index) ≺ _index.insert, both writes compared against their full length with failure returning false; the offset stored is "
-    "the data file's end before the write; R27.4 control put: lseek(_iod,0,SEEK_SET) ≺ single write(sizeof(IPrec)). R27.5 every tested lseek result in FilePersister counts only a negative value as failure; R27.6 in the index replay of initialise() no test on the record's offset/size fields can keep a complete record out of the index. R27.7 no open() of the store files carries O_APPEND (the control record is rewritten in place). NOT decided: "
+    "the data file's end before the write; R27.4 control put: lseek(_iod,0,SEEK_SET) ≺ single write(sizeof(IPrec)). R27.5 every tested lseek result in FilePersister counts only a negative value as failure; R27.6 in the index replay of initialise() no test on the record's offset/size fields can keep a complete record out of the index. R27.8 the file range get seeks to the indexed offset for every record (rules of C18 R18.2). R27.7 no open() of the store files carries O_APPEND (the control record is rewritten in place). NOT decided: "
     "enumeration of crash points × operation sequences.")
 
 F = 'FIX8::FilePersister::'
@@ -288,6 +288,18 @@ def run(ctx):
               'when `%s` is %s the record just read is not inserted into the index: the control record keeps the TARGET sequence number in its size field, so a '
               'control record with a large number is dropped on reopen and get(sender, target) fails' % (dropped[0].text() if dropped else '', dropped[1] if dropped else ''))
     positioned_writes_rule(ctx, prog, 'R27.7')
+    # ---------------- R27.8 after a crash the bytes behind the last indexed record are orphans of an interrupted put: both retrievals read a record from the offset
+    # its index entry names — the range get seeks for EVERY record (rules of C18 R18.2 on the file persister), never trusting the position the previous read left
+    from . import c18 as _c18
+    from ..engine import Ctx as _Ctx
+    sub18 = _Ctx('C18', ctx.tier)
+    _c18.range_get_rules(sub18, Program(UNITS + ['runtime/persist.cpp', 'runtime/session.cpp']), 'R18.2')
+    n18 = 0
+    for o in sub18.obl:
+        if 'FilePersister' in o['key'] and ('record.' in o['key'] or '#stop' in o['key'] or '#step' in o['key']):
+            n18 += 1
+            ctx._rec(o['ok'], 'R27.8', o['key'].split('@', 1)[1], o['site'], o['what'], o['detail'])
+    ctx.need(n18 >= 3, 'range-get rules of the file persister not evaluated (%d)' % n18)
     ctx.floor('R27.7', 2)
     ctx.floor('R27.3', 5)
     ctx.floor('R27.4', 3)
